@@ -18,3 +18,7 @@ def generic_replay(rp, units_by_name):
     print('replay %s: %s' % (rp['obligation'], res))
     print(getattr(ob, 'replay_output', '')[-1500:])
     return 1 if res.startswith('REPRODUCED') else 0
+
+HASH_REC = ['--replace', '_ZN8sha1hash7getHashEPKh=rec_compress', '--replace', '_ZN7md5hash7getHashEPKh=rec_compress', '--replace', '_ZN10sha256hash7getHashEPKh=rec_compress']
+def U_hash(hbuf=2): return Unit('hash', 'hash_shim.cpp', defines=['WENCRY_VERIF_HBUF_SZ=%d' % hbuf])
+def U_hash_rec(hbuf=2): return Unit('hash_rec', 'hash_shim.cpp', defines=['WENCRY_VERIF_HBUF_SZ=%d' % hbuf], ir2c_args=HASH_REC)
